@@ -281,6 +281,9 @@ theorem inv7_advanceAll (fuel target : Nat) {s : St} (h : Inv7 s) : ∀ x ∈ ad
     unfold advanceAll at hx
     obtain ⟨y, hy, hxy⟩ := List.mem_flatMap.mp hx
     have hyi := inv7_settleAll 200 h y hy
+    by_cases hidle : (!(Jm.turns y).isEmpty) = true
+    · simp only [hidle, if_true, List.mem_singleton] at hxy; subst hxy; exact hyi
+    simp only [hidle, Bool.false_eq_true, if_false] at hxy
     split at hxy
     · rename_i t _
       exact ih (s := { y with now := t }) (inv7_quiet (s := y) ⟨⟨rfl, rfl, rfl, rfl, rfl, rfl, rfl, rfl⟩, rfl⟩ hyi) x hxy
